@@ -178,13 +178,21 @@ func goToSched(gs *ast.GoStmt, imports map[string]bool) ast.Stmt {
 		args[i] = t
 	}
 	fun := call.Fun
-	// method value on an expression: bind the receiver expression too (evaluated at the go statement)
+	// x.M(...): a go statement evaluates the function value - here the METHOD VALUE x.M, which fixes the receiver - in the
+	// calling goroutine. Bind it to a temporary first (and before the arguments, as the language does), so that a receiver
+	// that is re-assigned before the new goroutine first runs (a package-level variable such as nodeTableStoreGC, replaced
+	// by the harness after package initialisation) is not picked up late. A method value of an addressable struct with a
+	// pointer receiver binds its address, so nothing is copied. pkg.F stays in place.
 	if sel, ok := fun.(*ast.SelectorExpr); ok {
-		if _, isIdent := sel.X.(*ast.Ident); !isIdent {
-			t := ast.NewIdent("verifRecv")
-			lhs = append(lhs, t)
-			rhs = append(rhs, sel.X)
-			fun = &ast.SelectorExpr{X: t, Sel: sel.Sel}
+		isPkg := false
+		if id, ok := sel.X.(*ast.Ident); ok && imports[id.Name] && id.Obj == nil {
+			isPkg = true
+		}
+		if !isPkg {
+			t := ast.NewIdent("verifFn")
+			lhs = append([]ast.Expr{t}, lhs...)
+			rhs = append([]ast.Expr{fun}, rhs...)
+			fun = t
 		}
 	}
 	inner := &ast.CallExpr{Fun: fun, Args: args, Ellipsis: call.Ellipsis}
